@@ -153,6 +153,8 @@ func Prepare() error {
 
 func Build() error {
 	files, _ := prebuild.RootApparmord.ReadDirRecursiveFiltered(nil, paths.FilterOutDirectories())
+	// First pass: run the builders on every file, so that a directive that pastes in
+	// the text of another profile (stack, exec) never sees a file no builder has touched.
 	for _, file := range files {
 		if !file.Exist() {
 			continue
@@ -162,6 +164,20 @@ func Build() error {
 			return err
 		}
 		profile, err = builder.Run(file, profile)
+		if err != nil {
+			return err
+		}
+		if err := file.WriteFile([]byte(profile)); err != nil {
+			return err
+		}
+	}
+
+	// Second pass: expand the directives
+	for _, file := range files {
+		if !file.Exist() {
+			continue
+		}
+		profile, err := file.ReadFileAsString()
 		if err != nil {
 			return err
 		}
